@@ -52,7 +52,7 @@ import (
 )
 
 type fetchStats struct {
-	Cases, Ops, Events, DistinctNontrivial, DupSources int
+	Cases, Ops, Events, DistinctNontrivial, DupSources, Hangs int
 	Kinds, LenClass, Conc, Faults, Modes, Outcomes map[string]int
 	Sizes                                          map[string]int
 	MaxInFlight                                    map[string]int
@@ -479,6 +479,15 @@ func runFetch(seed int64, nCases int, out *bufio.Writer, thorough bool) *fetchSt
 		shape := w.shape
 		for op := 0; op < nOps; op++ {
 			shape += runFetchOp(w, r, st, op, all, sk)
+			if st.Hangs >= 6 {
+				// every hang is a violation already and costs ten seconds: six of them end the stream
+				break
+			}
+		}
+		if st.Hangs >= 6 {
+			st.Cases++
+			out.Flush()
+			break
 		}
 		st.Cases++
 		// non-trivial: the log has a fork that was merged and at least one skip reference
@@ -746,6 +755,7 @@ func runFetchOp(w *fworld, r *rand.Rand, st *fetchStats, op int, all []iface.IPF
 		outcome = gOutcome
 	case <-time.After(10 * time.Second):
 		outcome = "hang"
+		st.Hangs++
 	}
 	close(stop)
 	elapsed := time.Since(start)
